@@ -219,8 +219,9 @@ def gen(item, rng, tier):
     mpu[0] = (1 | 31 << 1, 0, 3 << 8)
     mpu[5] = (1 | 4 << 1, DENY, 0) if kind == 'dabt' else (0, DENY, 0)
     extra = dict(G.mpu_sys(mpu))
-    st = P.main_state(rng, cfg, mode, 1, te, extra)
-    st['sys']['sctlr'] = G.sctlr_value(m=1, a=0, u=1, te=te, v=0, br=1)
+    ee = int(rng.random() < 0.3)
+    st = P.main_state(rng, cfg, mode, 1, te, extra, e=0, ee=ee)          # the block's memory effects are read little-endian: E=0 in the main program
+    st['sys']['sctlr'] = G.sctlr_value(m=1, a=0, u=1, te=te, v=0, br=1, ee=ee)
     st['cpsr'] = (st['cpsr'] & 0x0FFFFFFF) | nzcv << 28
     for i, v in enumerate(regs0):
         st['R']['R%dusr' % i] = v
